@@ -165,6 +165,9 @@ def setup(ctx):
         "reseat.partial.replace": ("bcs_s[i] = bcs", 2),
         "reseat.partial.insert": ("bcs_s.insert(i + 1, bcs)", 2),
     })
+    for lab in missing:
+        # the source line the probe looks for is gone (a refactor): not a reason to call the run inconclusive
+        ctx.counters[f"reach.unlocatable.{lab}"] += 1
     if missing:
         ctx.notes.append(f"reach labels not located: {missing}")
     timing.install(ctx, c10=False, c11=True)
